@@ -165,6 +165,11 @@ def gen_c08(rnd, n, thorough=False):
                 gl += fill_ops(rnd, nm, layout, m, xff, density=0.4, inconsistent=False)
             if rnd.chance(0.5):
                 gl += fill_ops(rnd, 'h/y/a.wsp', layout, m, xff, density=0.4, inconsistent=False)
+            if rnd.chance(0.5):
+                # one matched name is a symbolic link to a whisper file elsewhere: it is a matched source file
+                gl += fill_ops(rnd, 'other/t.wsp', layout, m, xff, density=0.4, inconsistent=False)
+                gl.append("symlink other/t.wsp g/y/l.wsp")
+                names = names + ['g/y/l.wsp']
             pat = rnd.pick(['*/a.wsp', '*/*.wsp', 'y/?.wsp', 'z/*.wsp', '[xy]/a.wsp', 'y/[.wsp'])
             gl += ["clicopy src=g:%s dest=h: from=0 until=0 archive=-1 copynan=%d m=%d x=%08x layout=%s spell=%d" % (pat, copynan, m, xff, lay_csv(layout), rnd.pick([0, 1, 2, 3, 4]))]
             for nm in names:
@@ -243,10 +248,17 @@ def gen_c09(rnd, n, thorough=False):
         side = rnd.pick(['local', 'local', 'remote_src', 'remote_dest'])
         if kind.startswith('missing') or kind == 'unsynced_dest':
             side = 'local'
+        sname = 'a.wsp'
+        if side != 'local' and kind != 'same' and rnd.chance(0.5):
+            # names with characters that are special in a query string
+            sname = rnd.pick(['cpu+io.wsp', 'rx&tx.wsp', 'q=1.wsp', 'p%41.wsp'])
+            lines = [l.replace(' s/a.wsp', ' s/' + sname) for l in lines]
         r1 = {'local': '', 'remote_src': ' remote=1', 'remote_dest': ' remotedest=1'}[side]
         r2 = {'local': '', 'remote_src': ' remotedest=1', 'remote_dest': ' remote=1'}[side]
-        lines.append("clidiff src=s:a.wsp dest=%s:%s from=%s until=%s archive=%d%s" % (db, dr, frm, until, arch, r1))
-        lines.append("clidiff src=%s:%s dest=s:a.wsp from=%s until=%s archive=%d%s" % (db, dr, frm, until, arch, r2))   # symmetric verdict
+        if db == 's':
+            dr = sname
+        lines.append("clidiff src=s:%s dest=%s:%s from=%s until=%s archive=%d%s" % (sname, db, dr, frm, until, arch, r1))
+        lines.append("clidiff src=%s:%s dest=s:%s from=%s until=%s archive=%d%s" % (db, dr, sname, frm, until, arch, r2))   # symmetric verdict
         cases.append({'id': 'c09-%d' % c, 'lines': lines, 'tags': {'layout': lname, 'pair': kind, 'window': wk, 'side': side}})
         if rnd.chance(0.2):
             gl = []
@@ -618,6 +630,14 @@ def gen_c12(rnd, n, thorough=False):
                                                                             rnd.pick(['0', '@-30', '1']), rnd.pick(['0', '@-3', '@+5'])))
         cases.append({'id': 'c12-%d' % c, 'lines': lines, 'tags': {'layout': lname}})
     cases.append({'id': 'c12-newline', 'lines': ['clinewline'], 'tags': {'layout': 'newline_in_name'}})
+    # answers of more than a megabyte (a long archive viewed over its whole retention, its raw dump)
+    N = 140000 if not thorough else 200000
+    offs = sorted(set([0, 1, 2, N - 2, N - 1, N // 2] + [rnd.randrange(N) for _ in range(5)]))
+    big = ["create s/big.wsp 1 1 %d m 2 x 00000000" % N,
+           "many s/big.wsp 0 @ %d %s" % (len(offs), " ".join("@-%d %016x" % (o, cvalue(rnd, False)) for o in offs)), "sync s/big.wsp", "drop s/big.wsp"]
+    big.append("cliview src=s:big.wsp from=0 until=0 archive=0 header=1 remote=1")
+    big.append("cliviewraw src=s:big.wsp from=0 until=0 archive=0 header=0 sort=0 remote=1")
+    cases.append({'id': 'c12-big', 'lines': big, 'tags': {'layout': 'big%d' % N}})
     # the query string itself (net/url as client and handler use it): escape, unescape, parse
     import urllib.parse
     special = b' +&=;%#/?:@~-_.\x00\xff\xe3\x81\x82\n"<>'
@@ -744,6 +764,26 @@ def gen_c16(rnd, n, thorough=False):
         cases.append({'id': 'c16-%d' % c, 'lines': lines, 'tags': {'layout': lname, 'src': srckind, 'dest': destkind, 'sub': hist}})
         if c == 1:
             cases.append(many_files_case(rnd, 'c16-%d-many' % c, ['sum', 'sumdiff', 'sumcopy']))
+    # copy over three archives where the middle one needs no write once the finest is written while the
+    # coarsest still differs: success means all of them were brought in line
+    for j in range(2):
+        lname = rnd.pick(['three_1s', 'three_2s', 'four'])
+        layout = CLI_LAYOUTS[lname]
+        m = rnd.pick(METHODS)
+        lines, cdst = cascade_pair(rnd, 's/a.wsp', 'd/a.wsp', layout, m, 0x3f000000)
+        lines += cdst
+        if j == 1:
+            # ... and a difference ONLY in the coarsest archive (the finer ones are equal and inside the window)
+            lines = fill_ops(rnd, 's/a.wsp', layout, m, 0x3f000000, density=1.0, only=[0, len(layout) - 1])
+            cp = copy_of(lines, 's/a.wsp', 'd/a.wsp')
+            S, N = layout[-1]
+            extra = [("@-%d" % (rnd.randrange(N) * S), fbits(float(rnd.randint(200, 300)))) for _ in range(3)]
+            lines = lines[:-2] + ["many s/a.wsp %d @ %d %s" % (len(layout) - 1, len(extra), " ".join("%s %016x" % tv for tv in extra))] + lines[-2:] + cp
+        opt = "src=s:a.wsp dest=d:a.wsp from=0 until=0 archive=-1 copynan=%d m=%d x=3f000000 layout=%s" % (rnd.pick([0, 1]), m, lay_csv(layout))
+        lines += ["clicopy " + opt]
+        observe_all(lines, 'd/a.wsp', layout)
+        lines += ["clidiff src=s:a.wsp dest=d:a.wsp from=0 until=0 archive=-1"]
+        cases.append({'id': 'c16-cascade-%d' % j, 'lines': lines, 'tags': {'layout': lname, 'src': 'ok', 'dest': 'cascade', 'sub': {'copy': 1, 'diff': 1}}})
     # every invocation starts at the command line: Parse of each subcommand (Model/Args.v)
     cases += gen_args(rnd, max(n // 4, 10))
     return cases
